@@ -584,3 +584,74 @@ def run(ctx) -> None:  # noqa: F811
                       f"{comp.name}'s kernel reads self.{p}", key_detail=p)
     ctx.require(n >= 4, f"R-COMPONENT-PARAMS matched only {n} parameters")
     _inner_run_c23(ctx)
+
+
+# ---- added after the seeded change C23-r2seed6: kernels do not write the angular grids they are handed
+_inner_run_c23b = run
+
+
+def run(ctx) -> None:  # noqa: F811
+    import ast as _ast
+
+    from ..model import norm_text as _nt, walk_no_nested as _walk
+    from ..rules.arrayown import Ownership
+
+    ctx.rule("R-ARGPURE", "the kernels of abtem/transfer.py (_evaluate_from_angular_grid of every transfer-function "
+             "class, soft_aperture, hard_aperture) never write the arrays they are handed: every in-place site "
+             "(augmented assignment, subscript store, out= keyword, .fill/.sort/.put) operates on a buffer the "
+             "function owns (ownership classes of sa/rules/arrayown.py: a copy, an allocation or the result of "
+             "arithmetic), never on (a view of) a parameter — CTF._evaluate_from_angular_grid hands one and the same "
+             "alpha/phi to the aperture, the envelopes and the aberrations, so a kernel that squares alpha in place "
+             "changes what the next component sees")
+    repo = ctx.repo
+    own = Ownership(repo)
+    mod = repo.modules["abtem.transfer"]
+    kernels = [f for c in mod.classes.values() for defs in c.methods.values() for f in defs
+               if f.name == "_evaluate_from_angular_grid" and not f.is_abstract]
+    kernels += [repo.function("abtem.transfer", n) for n in ("soft_aperture", "hard_aperture")]
+    ctx.require(len(kernels) >= 6, f"R-ARGPURE found only {len(kernels)} kernels")
+    for f in kernels:
+        df = own.df_of(f)
+        sites = []  # (stmt, root name, description)
+        for node in df.cfg.nodes:
+            st = node.ast
+            if st is None or node.kind != "stmt":
+                continue
+            if isinstance(st, _ast.AugAssign):
+                r = st.target
+                while isinstance(r, (_ast.Subscript, _ast.Attribute)):
+                    r = r.value
+                if isinstance(r, _ast.Name):
+                    sites.append((node.idx, st, r.id, _nt(st)[:60]))
+            if isinstance(st, _ast.Assign):
+                for t in st.targets:
+                    if isinstance(t, _ast.Subscript):
+                        r = t
+                        while isinstance(r, (_ast.Subscript, _ast.Attribute)):
+                            r = r.value
+                        if isinstance(r, _ast.Name):
+                            sites.append((node.idx, st, r.id, _nt(st)[:60]))
+            for c in _walk(st):
+                if isinstance(c, _ast.Call):
+                    for k in c.keywords:
+                        if k.arg == "out":
+                            for nm in (x for x in _ast.walk(k.value) if isinstance(x, _ast.Name)):
+                                sites.append((node.idx, st, nm.id, _nt(c)[:60]))
+                    if isinstance(c.func, _ast.Attribute) and c.func.attr in ("fill", "sort", "put", "itemset", "resize") \
+                            and isinstance(c.func.value, _ast.Name):
+                        sites.append((node.idx, st, c.func.value.id, _nt(c)[:60]))
+        bad = []
+        for idx, st, name, text in sites:
+            if name == "self":
+                continue
+            # ownership of the written variable just before the statement (an AugAssign re-defines it weakly)
+            classes = own.classify(f, idx, name)
+            params = sorted(c for c in classes if c.startswith("PARAM:") and c != "PARAM:self")
+            if params:
+                bad.append((st, text, params))
+        ctx.check(not bad, "R-ARGPURE", f"{f.qualname}:arguments untouched", f.loc(bad[0][0]) if bad else f.where,
+                  f"{len(sites)} in-place site(s), none on (a view of) a parameter",
+                  f"`{bad[0][1]}` writes in place into (a view of) the argument {bad[0][2]}: the caller's angular grid is "
+                  "changed, and the CTF passes the same grid on to its other components" if bad else "",
+                  key_detail="argpure")
+    _inner_run_c23b(ctx)
